@@ -1,7 +1,7 @@
 #!/bin/sh
 # confirm + run own-property quick check for every seeded change available
-for d in /tmp/seed-C*/out/[12]; do
-  id=$(echo $d | sed 's#/tmp/seed-\(C[0-9]*\)/out/.*#\1#'); n=$(basename $d)
+for d in /verif/seeded/C*-${1:-[0-9]}; do
+  b=$(basename $d); id=${b%-*}; n=${b#*-}
   [ -f $d/patch.diff ] || continue
   c=$(/venv/bin/python /verif/tools/seedcheck.py confirm $id $n | /venv/bin/python -c "import json,sys; d=json.load(sys.stdin); print('confirmed' if d['ok'] else 'NOTCONFIRMED '+json.dumps(d)[:200])")
   r=$(/venv/bin/python /verif/tools/seedcheck.py run $id $n | /venv/bin/python -c "
